@@ -62,7 +62,13 @@ def xml_cases(draw):
     family = {"int": "int", "integer": "int", "gYear": "int", "decimal": "float", "double": "float"}
     for t in S.all_types(spec) + [e["type"]["anon"] for t0 in S.all_types(spec) if t0["k"] == "complex" for e in S.local_elements(t0) if "anon" in e["type"]]:
         if t["k"] == "complex" and t.get("mixed"):
-            kinds = [family.get(e["type"].get("b"), e["type"].get("b") or id(e)) for e in S.local_elements({"content": t["content"]}) ] if t.get("content") else []
+            def kind_of(e):
+                b = e["type"].get("b")
+                ct = e["type"].get("anon") or spec["types"].get(e["type"].get("t"))
+                if b is None and ct is not None and ct["k"] == "complex" and ct.get("simple"):
+                    b = ct["simple"]            # text of a simple-content child is inferred like a plain value
+                return family.get(b, b or id(e))
+            kinds = [kind_of(e) for e in S.local_elements({"content": t["content"]})] if t.get("content") else []
             if len(set(kinds)) != len(kinds):
                 t["mixed"] = False
     docs = []
